@@ -74,6 +74,10 @@ def mkvalue(spec):
         return "x" * int(spec[1])
     if k == "bigu":  # non-ASCII text: 1 character = 3 UTF-8 bytes = 6 escaped JSON characters
         return "\u65e5" * int(spec[1])
+    if k == "kdict":  # a dict with a key JSON cannot encode (tuple / bytes / frozenset), optionally nested
+        key = {"tuple": ("eu", "order-17"), "bytes": b"k", "frozenset": frozenset({1})}[spec[1]]
+        d = {key: "shipped", "count": 1}
+        return {"outer": [d]} if len(spec) > 2 and spec[2] else d
     if k == "set":  # not serialisable by the default serdes
         return {1, 2}
     if k == "obj":  # not JSON-serialisable at all
@@ -206,6 +210,10 @@ def _flaky_serdes(serdes_mod, w, pos, spec):
 
             def serialize(self, value, serdes_context):
                 self._count("ser")
+                if self._spec.get("norm"):
+                    # a plain-JSON codec: what it restores is a normal form of what it was given (tuples come back as lists)
+                    import json as _json
+                    return self._spec.get("tag", "F") + _json.dumps(value)
                 return self._spec.get("tag", "F") + serdes_mod.EXTENDED_TYPES_SERDES.serialize(value, serdes_context)
 
             def deserialize(self, data, serdes_context):
@@ -215,6 +223,9 @@ def _flaky_serdes(serdes_mod, w, pos, spec):
                     # e.g. an external party answering a callback in another encoding
                     self._w.rec("serdes-fail", pos=self._pos, which="format", n=0)
                     raise ValueError(f"not a {tag} payload")
+                if self._spec.get("norm"):
+                    import json as _json
+                    return _json.loads(data[1:])
                 return serdes_mod.EXTENDED_TYPES_SERDES.deserialize(data[1:], serdes_context)
         _XS["flaky"] = _Flaky
     return _XS["flaky"](w, pos, spec)
@@ -408,6 +419,9 @@ class Interp:
                         and f.get("phase") == "exit"):
             w.crash_here("fn-exit")
         if beh["do"] == "raise":
+            if "size" in beh:  # a huge message, given by its length
+                w.rec("fn-exit", pos=pos, n=j, attempt=attempt, outcome="raise", cls=beh["cls"], msg=f"E*{beh['size']}")
+                raise make_exc(beh["cls"], ("\u65e5" if beh.get("uni") else "E") * beh["size"])
             w.rec("fn-exit", pos=pos, n=j, attempt=attempt, outcome="raise", cls=beh["cls"], msg=beh.get("msg", "boom"))
             raise make_exc(beh["cls"], beh.get("msg", "boom"), beh.get("args"))
         v = mkvalue(beh["v"])
